@@ -73,7 +73,10 @@ def rule_dialect(ctx):
         if "reader" not in seen or "writer" not in seen:
             return (key, "csv.reader / csv.writer not both constructed", "conforms")
         writer_target = seen["writer"][0][0]
-        if seen["reader"][0][0] is not stream or not (writer_target is stream or (isinstance(writer_target, Obj) and writer_target.attrs.get("is_row_buffer"))):
+        # the writer formats into the stream itself, an in-memory buffer, or a sink object of the repository's own class
+        own_sink = isinstance(writer_target, Obj) and not isinstance(writer_target.cls, str)
+        if seen["reader"][0][0] is not stream or not (writer_target is stream or own_sink
+                                                      or (isinstance(writer_target, Obj) and writer_target.attrs.get("is_row_buffer"))):
             problems.append("reader/writer not attached to the given stream (or a row buffer)")
         reader_keywords = dict(seen["reader"][1])
         writer_keywords = dict(seen["writer"][1])
@@ -260,4 +263,11 @@ def rule_field_size_limit(ctx):
                      "be read back (csv.Error: field larger than field limit)")
 
 
-RULES = [rule_dialect, rule_accepted_configurations, rule_newline, rule_quoting_modes, rule_write_rows_agrees_with_write_row, rule_field_size_limit, rule_module_state]
+def rule_writers_close_their_files(ctx):
+    """O12.8: writing to a path and reading the path back needs the writer's close() to close (flush) the file it opened."""
+    from . import protocol
+
+    protocol.row_writer_close_table(ctx, "O12.8")
+
+
+RULES = [rule_dialect, rule_accepted_configurations, rule_newline, rule_quoting_modes, rule_write_rows_agrees_with_write_row, rule_field_size_limit, rule_writers_close_their_files, rule_module_state]
